@@ -243,12 +243,110 @@ VAL = {"I": [5, 0, -3, 12], "F": [1.5, 2.0, -0.25], "B": [True, False], "S": ["a
 for line in sys.stdin:
     q = json.loads(line)
     f = getattr(obj, q["name"]) if q["method"] else getattr(tlib, q["name"])
+    args = list(q["pos"]) + list(q["kw"].values())
+    before = [sys.getrefcount(a) for a in args]
     try:
         r = f(*q["pos"], **q["kw"])
-        print("RET", repr(r), flush=True)
+        line = "RET " + repr(r)
+        del r
     except BaseException as e:
-        print("EXC", type(e).__name__, flush=True)
+        line = "EXC " + type(e).__name__
+        del e
+    after = [sys.getrefcount(a) for a in args]
+    if before != after:
+        # the caller's arguments are borrowed: a call must neither keep nor give away a reference to them
+        print("REFS", json.dumps([before, after]), flush=True)
+    print(line, flush=True)
 '''
+
+PST_YAML = {"library": "pst", "cxx_header": "pst.hpp",
+            "options": {"wrap_c": False, "wrap_fortran": False, "wrap_python": True, "wrap_lua": False, "PY_struct_arg": "class", "PY_array_arg": "list"},
+            "declarations": [{"decl": "struct Pair { int ifield; double dfield; };"},
+                             {"decl": "int bumpPair(Pair *arg +intent(inout))"}, {"decl": "void fillPair(Pair *arg +intent(out))"},
+                             {"decl": "int sumPair(const Pair *arg)"}, {"decl": "Pair makePair(int i, double d)"},
+                             {"decl": "int twoPairs(Pair *a +intent(inout), Pair *b +intent(inout))"}]}
+PST_HPP = """#pragma once
+struct Pair { int ifield; double dfield; };
+int bumpPair(Pair *arg); void fillPair(Pair *arg); int sumPair(const Pair *arg); Pair makePair(int i, double d); int twoPairs(Pair *a, Pair *b);
+"""
+PST_CPP = """#include "pst.hpp"
+int bumpPair(Pair *arg) { arg->ifield += 1; arg->dfield *= 2; return 3; }
+void fillPair(Pair *arg) { arg->ifield = 9; arg->dfield = 0.5; }
+int sumPair(const Pair *arg) { return arg->ifield + (int)arg->dfield; }
+Pair makePair(int i, double d) { Pair p = {i, d}; return p; }
+int twoPairs(Pair *a, Pair *b) { a->ifield += b->ifield; b->ifield = 0; return 1; }
+"""
+PST_RUN = r'''
+import json, sys
+sys.path.insert(0, sys.argv[1])
+import pst
+def obs(label, fn, *objs):
+    before = [sys.getrefcount(o) for o in objs]
+    r = fn(*objs)
+    shown = repr([x if isinstance(x, (int, float)) else (type(x).__name__, x.ifield, x.dfield, any(x is o for o in objs)) for x in (r if isinstance(r, tuple) else (r,))])
+    del r
+    after = [sys.getrefcount(o) for o in objs]
+    print(json.dumps({"label": label, "result": shown, "refs_before": before, "refs_after": after,
+                      "fields": [(o.ifield, o.dfield) for o in objs]}), flush=True)
+s = pst.Pair(1, 2.5)
+t = pst.Pair(5, 1.0)
+for k in range(3):
+    obs("bumpPair", pst.bumpPair, s)
+obs("sumPair", pst.sumPair, s)
+obs("twoPairs", pst.twoPairs, s, t)
+obs("fillPair", pst.fillPair)
+obs("makePair", lambda: pst.makePair(4, 1.5))
+obs("bumpPair", pst.bumpPair, s)
+print(json.dumps({"label": "end", "fields": [(s.ifield, s.dfield), (t.ifield, t.dfield)]}), flush=True)
+'''
+PST_WANT = [("bumpPair", "[3, ('Pair', 2, 5.0, True)]", [(2, 5.0)]), ("bumpPair", "[3, ('Pair', 3, 10.0, True)]", [(3, 10.0)]),
+            ("bumpPair", "[3, ('Pair', 4, 20.0, True)]", [(4, 20.0)]), ("sumPair", "[24]", [(4, 20.0)]),
+            ("twoPairs", "[1, ('Pair', 9, 20.0, True), ('Pair', 0, 1.0, True)]", [(9, 20.0), (0, 1.0)]),
+            ("fillPair", "[('Pair', 9, 0.5, False)]", []), ("makePair", "[('Pair', 4, 1.5, False)]", []),
+            ("bumpPair", "[3, ('Pair', 10, 40.0, True)]", [(10, 40.0)]), ("end", None, [(10, 40.0), (0, 1.0)])]
+
+
+def struct_library(ctx):
+    """a struct wrapped as a Python class (PY_struct_arg: class): intent(inout) / intent(out) struct arguments come back in the
+    result tuple; the values reach and leave the library, and no call keeps or gives away a reference to the caller's object"""
+    import corpus
+    import sysconfig
+    import yaml
+    d = os.path.join(ctx.bdir, "py", "pst")
+    os.makedirs(d, exist_ok=True)
+    yaml.safe_dump(PST_YAML, open(os.path.join(d, "pst.yaml"), "w"), sort_keys=False)
+    open(os.path.join(d, "pst.hpp"), "w").write(PST_HPP)
+    open(os.path.join(d, "pst.cpp"), "w").write(PST_CPP)
+    od = os.path.join(d, "out")
+    rc, out = corpus.run_shroud(os.path.join(d, "pst.yaml"), od)
+    if rc != 0:
+        ctx.broken.append(("correspondence", "py-struct-shroud", out[-1200:]))
+        return
+    rc, out = vlib.sh("g++ -std=c++11 -shared -fPIC -w -I%s -I. -I%s %s/py*.cpp pst.cpp -o pst.so" % (sysconfig.get_paths()["include"], od, od), cwd=d, timeout=300)
+    if rc != 0:
+        ctx.broken.append(("correspondence", "py-struct-build", out[-2000:]))
+        return
+    open(os.path.join(d, "run.py"), "w").write(PST_RUN)
+    p = subprocess.run([vlib.PY, os.path.join(d, "run.py"), d], stdout=subprocess.PIPE, stderr=subprocess.PIPE, text=True, timeout=120)
+    rows = [json.loads(l) for l in p.stdout.split("\n") if l.startswith("{")]
+    yml = open(os.path.join(d, "pst.yaml")).read()
+    for k, (label, result, fields) in enumerate(PST_WANT):
+        ctx.count(1, ("pst", k))
+        ctx.hist("struct:" + label)
+        if k >= len(rows):
+            ctx.violation("failing-input", {"what": "the extension crashed the interpreter or stopped (rc %s) in a sequence of calls with struct arguments" % p.returncode,
+                                            "input": {"library_yaml": yml, "call_number": k, "call": label}, "stderr": p.stderr[-600:]})
+            return
+        r = rows[k]
+        bad = None
+        if r["label"] != label or (result is not None and r.get("result") != result) or [tuple(x) for x in r["fields"]] != fields:
+            bad = "a struct argument or result did not carry the documented values"
+        elif r.get("refs_before") != r.get("refs_after"):
+            bad = "a call changed the reference count of the caller's struct object (the argument is borrowed: the result tuple must own its own reference)"
+        if bad:
+            ctx.violation("failing-input", {"what": bad, "input": {"library_yaml": yml, "call_number": k, "call": label}, "observed": r,
+                                            "expected": {"result": result, "fields": fields}})
+            return
 
 
 def build(ctx, lib, tag):
@@ -478,7 +576,11 @@ def run(ctx):
                            text=True, timeout=300, env=dict(os.environ, PYTHONUNBUFFERED="1"))
         out = [l for l in p.stdout.split("\n") if l]
         chunks, cur = [], []
+        refs = {}
         for l in out:
+            if l.startswith("REFS "):
+                refs[len(chunks)] = l[5:]
+                continue
             cur.append(l)
             if l.startswith(("RET", "EXC")):
                 chunks.append(cur)
@@ -486,6 +588,13 @@ def run(ctx):
         # the first chunk belongs to the Cls() constructor call of the runner (LOG only, no RET): drop its LOG line
         if chunks and chunks[0] and chunks[0][0].startswith("LOG Cls#"):
             chunks[0] = chunks[0][1:]
+        allq_ = queries + [(n_, False, None, p_, k_, "extra") for (n_, p_, k_, _) in extra]
+        for ci, rf in sorted(refs.items())[:2]:
+            if ci < len(allq_):
+                ctx.violation("failing-input", {"what": "a call changed the reference count of one of its arguments (arguments are borrowed references)",
+                                                "input": {"library_yaml": open(os.path.join(d, "tlib.yaml")).read(), "function": allq_[ci][0],
+                                                          "positional": allq_[ci][3], "keywords": {str(k): v for k, v in allq_[ci][4].items()}},
+                                                "refcounts_before_after": rf})
         xchunks = chunks[len(queries):]
         complete = p.returncode == 0 and len(chunks) == len(queries) + len(extra)
         if len(chunks) >= len(queries):
@@ -539,6 +648,7 @@ def run(ctx):
                         "library_yaml": open(os.path.join(d, "tlib.yaml")).read(), "function": name, "method": is_method,
                         "positional": pos, "keywords": {("zz" if k == "zz" else "a%d" % k): v for k, v in kw.items()}}, "observed": got})
         ctx.traces += 1
+    struct_library(ctx)
     ctx.sample({"library_functions": [(f["name"], f["params"], f["ret"]) for f in libs[0]["funcs"]][:4]})
 
 
